@@ -1,4 +1,5 @@
 fn main() {
+    println!("cargo::rustc-check-cfg=cfg(risinglight_verif)");
     #[cfg(feature = "python")]
     pyo3_build_config::add_extension_module_link_args();
 }
